@@ -410,6 +410,7 @@ def hist_start(L, prog):
     # file-sourced, so that a render can be made to fail in the middle (see "render_fail")
     st.img = family_class(L, prog.fam).from_file(src_file(prog.src))
     st.setting = ("dyn", "FIT")    # model of the size setting: the constructor default is dynamic FIT
+    st.img.rendered_size           # see hist_apply
     return st
 
 
@@ -420,6 +421,28 @@ def hist_geo(prog, st):
 
 
 def hist_apply(L, prog, st, op, check):
+    """Apply *op* and judge it (see _hist_apply).  Every operation - judged or not - ends with one plain read of
+    `rendered_size`, and the first thing judged after a terminal / cell / ratio change is again a read of
+    `rendered_size` of the SAME instance: the same request back to back with only the environment change in
+    between, so a size remembered from before the change (rather than computed for the current terminal and cell
+    size) is seen."""
+    bad = _hist_apply(L, prog, st, op, check)
+    st.img.rendered_size
+    return bad
+
+
+def same_as_fresh(L, prog, got, **kw):
+    """The size a request yields depends on the current environment only: a history-free image given the same
+    request now gets the same size."""
+    twin = family_class(L, prog.fam)(pil(prog.src))
+    twin.set_size(**kw)
+    if twin.size != got:
+        return [("history-independent", f"set_size({kw}) gave {got}, a fresh image gets {twin.size} in the same "
+                 f"terminal")]
+    return []
+
+
+def _hist_apply(L, prog, st, op, check):
     """Apply *op* to the real objects and to the model; when *check*, judge the transition.
     Returns the list of (clause, text)."""
     Size = L.image.Size
@@ -497,6 +520,7 @@ def hist_apply(L, prog, st, op, check):
         st.setting = ("fixed", got)
         if check:
             bad += judge(geo, mode, frame, got, refs.get("ORIGINAL"), refs.get("FIT"))
+            bad += same_as_fresh(L, prog, got, width=Size[mode], frame_size=frame)
     elif kind == "size=" and isinstance(op[1], str):
         img.size = Size[op[1]]
         st.setting = ("dyn", op[1])
@@ -537,6 +561,8 @@ def hist_apply(L, prog, st, op, check):
                     twin.set_size(Size[m])
                     refs[m] = twin.size
             bad += judge(geo, mode, frame, got, refs.get("ORIGINAL"), refs.get("FIT"))
+            if mode_name(mode) != "manual":
+                bad += same_as_fresh(L, prog, got, **mode_args(L, mode)[0])
     if check and st.setting[0] == "fixed" and is_size(st.setting[1]) and img.rendered_size != st.setting[1]:
         bad.append(("rendered-consistent", f"fixed size {st.setting[1]}: rendered_size {img.rendered_size}"))
     return bad
@@ -764,13 +790,14 @@ def params(tier):
                   apis=["set_size", "set_size(height=enum)", "size=enum (dynamic) -> rendered_size", "width=/height=/size=",
                         "constructor"])
     # ---- history programs
-    envs = [[(20, 10), (8, 16)], [(7, 5), (2, 3)], [(20, 10), (9, 18)]]
+    # env 2 has the columns / lines of env 0 but another cell pixel size AND another cell aspect
+    envs = [[(20, 10), (8, 16)], [(7, 5), (2, 3)], [(20, 10), (9, 12)]]
     hist = []
     hsrcs = [(7, 5), (3, 8)] if quick else [(7, 5), (3, 8), (40, 9), (1, 1)]
     for fam in ("text", "graphics"):
-        for src in hsrcs:
+        for src in hsrcs + ([(40, 9)] if quick and fam == "graphics" else []):
             hist.append(dict(family=fam, src=list(src), envs=[[list(t), list(c)] for t, c in envs] +
-                             ([] if quick else [[[80, 24], [10, 20]]]),
+                             ([] if quick else [[[80, 24], [10, 20]], [[20, 10], [9, 18]]]),
                              ratios=([0.5, 1.0, "DYNAMIC", "FIXED"] if fam == "text" else [1.0]) +
                              ([] if quick or fam != "text" else [0.25]),
                              set_frames=[[0, -2], [5, 4]], ks=[1, 3], manuals=[[3, 2], [50, 40]],
